@@ -14,6 +14,11 @@ v       request variant (used by the harness only to build the HTTP request)
 rand    `-` or `<seed>:<d,d,…>` raw Int63 draws of math/rand after Seed(seed)
 
   prx <dyn|sta> <policy|-> <m>:<fd>:<mf>:<r> <ups> <script> <rand>
+  pd <dyn|sta> <policy|-> <m>:<fd>:<mf>:<r>[:0[:<rm>]] <ups> <requests> <rand>
+        the proxy loop when every dial address is a placeholder filled in per request (fillDialInfo after Select);
+        ups as for prx (kinds o d e); requests joined by `,`: `q`/`Q` + one letter per upstream: g = filled in with a
+        good address, r m w z = the dial info cannot be made (port range, named port, reversed range, port > 65535).
+        answer as for prx; a request that ends in fillDialInfo for upstream i: `di<i>`
   dy <m>:<fd>:<mf>:<cb> <static ups> <none|one|multi> <sources> <j|c|p> <foreign load>   the pool an iteration hands to Select
         the proxy loop around Select: one reverse_proxy handler whose upstreams are static (`sta`) or handed
         out afresh for every loop iteration by a dynamic upstream source (`dyn`); policy one of first,
@@ -73,6 +78,7 @@ import CaddyModel.C08.Keys
 import CaddyModel.C08.Caddyfile
 import CaddyModel.C08.Witness
 import CaddyModel.C08.Dynamic
+import CaddyModel.C08.Wrappers
 
 namespace CaddyModel.C08
 
@@ -494,6 +500,51 @@ def prxLine (mode pol cfg upsS script rnd : String) : String :=
     | none => "bad-op"
   | _, _, _, _ => "bad-op"
 
+/-! ### `pd` lines: dial addresses with placeholders (`fillDialInfo` after `Select`) -/
+
+/-- one request: `q` / `Q` (GET / POST) and one letter per upstream: `g` = the placeholder of its dial
+    address is filled in with a good address, `r` port range, `m` named port, `w` reversed range,
+    `z` port above 65535 = the dial info cannot be made -/
+def parseDReq (n : Nat) (s : String) : Option (Bool × List Nat) :=
+  match s.toList with
+  | m :: ls =>
+    if (m = 'q' || m = 'Q') && ls.length = n
+        && ls.all (fun ch => ch = 'g' || ch = 'r' || ch = 'm' || ch = 'w' || ch = 'z') then
+      some (m = 'q', (ls.zipIdx.filter (fun x => x.1 ≠ 'g')).map (·.2))
+    else none
+  | [] => none
+
+def showDFin : DFin → String
+  | .fin f => showFinal f
+  | .dialInfo i => "di" ++ toString i
+
+def showDOut (x : List (Option Nat) × DFin) : String := "/".intercalate (x.1.map showTried ++ [showDFin x.2])
+
+def dStarved : List (Option Nat) × DFin → Bool
+  | (_, .fin .starved) => true
+  | _ => false
+
+def pdAnswer (p : Policy) (c : PCfg) (rs : List (Bool × List Nat)) (ds : List Nat) : String :=
+  match provision p with
+  | none => "err:provision"
+  | some p =>
+    if (drun c (pinit p c ds) rs).1.any dStarved then "starved"
+    else ",".intercalate ((drun c (pinit p c ds) rs).1.map showDOut)
+      ++ " c=" ++ counterOf (drun c (pinit p c ds) rs).2.pol
+      ++ " n=" ++ showNatList (drun c (pinit p c ds) rs).2.loads
+      ++ " f=" ++ showNatList (drun c (pinit p c ds) rs).2.fails
+
+def pdLine (mode pol cfg upsS reqs rnd : String) : String :=
+  match parseProxyPolicy pol, parsePUps upsS, parseRand rnd with
+  | some p, some ups, some ds =>
+    match parsePCfg (mode == "dyn") cfg ups [], (reqs.splitOn ",").mapM (parseDReq ups.length) with
+    | some c, some rs =>
+      if (mode == "dyn" || mode == "sta") && 0 < ups.length && ups.length ≤ 8 && decide (ups.map (·.id)).Nodup
+          && (strikesOf upsS).isEmpty && !c.cb && rs.length ≤ 16 then pdAnswer p c rs ds
+      else "bad-op"
+    | _, _ => "bad-op"
+  | _, _, _ => "bad-op"
+
 def handle : List String → String
   | ["ah", p, f, script] =>
     match num 20 p, num 20 f, (script.toList.mapM fun c => if c = 'p' then some true else if c = 'f' then some false else none) with
@@ -518,6 +569,13 @@ def handle : List String → String
     | some toks, some tbl, some atbl =>
       if toks.length ≤ 64 then showRp (parseReverseProxy (durOf tbl) (addrOf atbl) toks) else "bad-op"
     | _, _, _ => "bad-op"
+  | ["wr", kind, toks, durs, addrs] =>
+    -- a reverse_proxy / forward_auth / php_fastcgi directive through the whole Caddyfile adapter
+    match (if kind == "rp" then some WKind.rp else if kind == "fa" then some WKind.fa else if kind == "php" then some WKind.php else none),
+          (toks.splitOn ",").mapM parseTok, parseDurTable durs, parseAddrTable addrs with
+    | some k, some toks, some tbl, some atbl =>
+      if toks.length ≤ 64 && wrapperCaseOK k toks then showRp (parseWrapper k (durOf tbl) (addrOf atbl) toks) else "bad-op"
+    | _, _, _, _ => "bad-op"
   | ["cf", toks, durs] =>
     match (toks.splitOn ",").mapM parseTok, parseDurTable durs with
     | some toks, some tbl => if toks.length ≤ 48 then showCfRes (parseLbPolicy (durOf tbl) toks) else "bad-op"
@@ -544,6 +602,7 @@ def handle : List String → String
       | some v => (match tokenIdx v with | some j => toString j | none => "fb")
       | none => "fb"
     | _, _ => "bad-op"
+  | ["pd", mode, pol, cfg, upsS, reqs, rnd] => pdLine mode pol cfg upsS reqs rnd
   | ["prx", mode, pol, cfg, upsS, script, rnd] => prxLine mode pol cfg upsS script rnd
   -- a trailing `c`: the same configuration delivered as a Caddyfile — the same handler
   | ["prx", mode, pol, cfg, upsS, script, rnd, "c"] => prxLine mode pol cfg upsS script rnd
